@@ -68,8 +68,13 @@ def fn1OK (name : String) (x : ℝ) : Prop :=
 
 /-- `e` belongs to the closed-form fragment (`+ - * / ^`, unary minus, `pi`, the known functions), every
 division / logarithm / root / power is inside its domain at `env`, and `e` is differentiable in every variable
-there.  (Powers: a constant exponent `c` needs `base ≠ 0 ∨ 1 ≤ c`; any other exponent needs `0 < base`.
-`sqrt` of a constant is a constant and needs nothing.) -/
+there.  (Powers: a constant exponent `c` needs `base ≠ 0 ∨ 1 ≤ c`, and a *negative* base needs an integer
+exponent `c`; any other exponent needs `0 < base`.  `sqrt` of a constant is a constant and needs nothing.)
+
+The clause `den a env < 0 → c.den = 1` was added while proving `deriv_correct_aux`: Lean's `Real.rpow` at a
+negative base and a non-integer exponent is `exp (c * log |x|) * cos (c * π)`, not a value the calculator means,
+and there `1 / x ^ c ≠ x ^ (-c)`, which is the rewriting `rules.deriv` uses for `u / x ^ c`
+(e.g. `1 / x ^ (1/3)` at `x = -1`: the model derivative evaluates to `1/6`, the `rpow` derivative is `2/3`). -/
 def DiffOK : Expr → (String → ℝ) → Prop
   | var _, _ => True
   | const _, _ => True
@@ -77,7 +82,8 @@ def DiffOK : Expr → (String → ℝ) → Prop
   | op .sub a b, env => DiffOK a env ∧ DiffOK b env
   | op .mul a b, env => DiffOK a env ∧ DiffOK b env
   | op .div a b, env => DiffOK a env ∧ DiffOK b env ∧ den b env ≠ 0
-  | op .pow a (const c), env => DiffOK a env ∧ (den a env ≠ 0 ∨ 1 ≤ (c : ℝ))
+  | op .pow a (const c), env =>
+      DiffOK a env ∧ (den a env ≠ 0 ∨ 1 ≤ (c : ℝ)) ∧ (den a env < 0 → c.den = 1)
   | op .pow a b, env => DiffOK a env ∧ DiffOK b env ∧ 0 < den a env
   | neg a, env => DiffOK a env
   | fn0 n, _ => n = "pi"
